@@ -10,14 +10,21 @@ A case is a JSON-able dict
      "labels": {level name: "int" | "rev" | "str" | "float" | "interval"},   (optional, default "int")
      "name_types": {level name: "zero" | "empty" | "float0" | "tuple" | "float" | "bytes"},   (optional: the real
                    pandas name of the level is 0 / '' / 0.0 / a tuple / a float / bytes instead of the string)
-     "share_index": true}                                               (optional: one Index object for both)
-    OPERAND = {"kind": "series" | "frame", "names": [str | None, ...], "keys": [[int, ...], ...], "ncols": int}
+     "share_index": true,                                               (optional: one Index object for both)
+     "cells": "int" | "frac" | "i64" | "nan1",                          (optional, default "int": how a cell id becomes a value)
+     "rec_labels": "str" | "int" | "float" | "tuple",                   (optional: entry labels of a one-level record Series)
+     "anon_plain": true}                                                (optional: unnamed levels carry the bare codes on BOTH sides)
+    OPERAND = {"kind": "series" | "frame", "names": [str | None, ...], "keys": [[int, ...], ...], "ncols": int,
+               "mi1": true}                          (optional: a ONE-level index is built as a MultiIndex of one level)
 
 Level values are small integer *codes*; on the implementation side a code is turned into a label by the
 level's label type (identity, reversed integers, strings, floats; unnamed levels get labels from a range that
 identifies operand and position so that they can be told apart in the result).  Cell values are not stored:
-the cell in row i, column j of the object is 1 + i*ncols + j, of the parameter 1001 + i*ncols + j, so that
-all cells are distinct and any misalignment is visible.
+the cell in row i, column j of the object has the ID 1 + i*ncols + j, of the parameter 1001 + i*ncols + j, so that
+all cells are distinct and any misalignment is visible.  The VALUE of a cell is its id ("int": as a float), or
+id*1.1 + 0.007 ("frac": not whole, not representable in float32), "i64": the object's cells are int64 ids and the
+parameter's are "frac", "nan1": "frac" with one NaN cell in each operand.  The model works on ids; the harness maps
+the values that come back to ids (`value_id`), any other value is shown as it is and so disagrees.
 
 Two further kinds of case, {"kind": "woehler", ...} and {"kind": "haigh", ...}, exercise the clause "every
 calculation built on it": the allowable cycles of per-element Woehler curves for per-scenario loads, and the
@@ -55,15 +62,57 @@ def label(ltype, code):
         return 0.5 * code - 1.0
     if ltype == "interval":      # overlapping intervals, as in the Haigh diagrams of meanstress.py
         return pd.Interval(0.5 * code, 0.5 * code + 1.0)
+    if ltype == "dt":
+        return pd.Timestamp("2020-01-01") + pd.Timedelta(days=int(code))
+    if ltype == "cat":           # (the level is built as a Categorical, see level_labels)
+        return f"k{code}"
     raise ValueError(ltype)
 
 
-def anon_label(side, pos, code):
+def anon_label(side, pos, code, plain=False):
+    if plain:       # as two default RangeIndex-like unnamed indices: the same labels on both operands
+        return int(code)
     return (10000 if side == "o" else 20000) + 1000 * pos + int(code)
 
 
 def cell(side, i, j, ncols):
+    """the ID of a cell (what the model sees)"""
     return float((1 if side == "o" else 1001) + i * ncols + j)
+
+
+def frac(v):
+    return float(v) * 1.1 + 0.007
+
+
+def cell_value(case, side, i, j, ncols, nrows):
+    """the VALUE the real operand holds in that cell"""
+    cid = cell(side, i, j, ncols)
+    mode = case.get("cells", "int")
+    if mode == "int":
+        return cid
+    if mode == "i64" and side == "o":
+        return int(cid)
+    if mode == "nan1" and j == 0 and i == (0 if side == "o" else nrows - 1):
+        return float("nan")
+    return frac(cid)
+
+
+def plain_value(case, v):
+    """the value of an array element / a scalar with the id v"""
+    mode = case.get("cells", "int")
+    if mode == "int":
+        return float(v)
+    if mode == "i64":
+        return int(v)
+    return frac(v)
+
+
+def same_value(a, b):
+    try:
+        a, b = float(a), float(b)
+    except Exception:
+        return False
+    return a == b or (a != a and b != b)
 
 
 NAME_TYPES = {        # symbolic level name -> the real pandas level name
@@ -71,7 +120,7 @@ NAME_TYPES = {        # symbolic level name -> the real pandas level name
     "empty": lambda sym: "",
     "float0": lambda sym: 0.0,
     "tuple": lambda sym: ("t", sym),
-    "float": lambda sym: 2.5 + (ord(sym[0]) % 7),
+    "float": lambda sym: 2.5 + sum((i + 1) * ord(c) for i, c in enumerate(sym)) % 89,     # (distinct for x, x2, y, y2, …)
     "bytes": lambda sym: sym.encode(),
 }
 
@@ -102,13 +151,20 @@ def sym_name(case, real):
 
 def level_labels(case, side, op, pos):
     name = op["names"][pos]
-    if side == "o" and is_record(case):
-        # entries of a record are its fields: strings (`_broadcasted_dataframe` passes them as keywords)
-        return [f"f{k[pos]}" for k in op["keys"]]
+    if side == "o" and is_record(case) and len(op["names"]) == 1:
+        # entries of a record are its fields: mostly strings; ints / floats / tuples as for a Series taken out of a
+        # frame with such column labels
+        rl = case.get("rec_labels", "str")
+        f = {"str": lambda c: f"f{c}", "int": lambda c: 10 * (c + 1), "float": lambda c: 0.25 + 0.5 * c,
+             "tuple": lambda c: ("t", c)}[rl]
+        return [f(k[pos]) for k in op["keys"]]
     if name is None:
-        return [anon_label(side, pos, k[pos]) for k in op["keys"]]
+        return [anon_label(side, pos, k[pos], case.get("anon_plain")) for k in op["keys"]]
     lt = case.get("labels", {}).get(name, "int")
-    return [label(lt, k[pos]) for k in op["keys"]]
+    labs = [label(lt, k[pos]) for k in op["keys"]]
+    if lt == "cat":
+        return pd.Categorical(labs, categories=[f"k{c}" for c in range(8)])
+    return labs
 
 
 def build(case, side, index=None):
@@ -118,24 +174,31 @@ def build(case, side, index=None):
     op = case["obj" if side == "o" else "prm"]
     kind = op["kind"]
     if kind == "scalar":
-        return float(op["v"])
+        v = plain_value(case, op["v"])
+        st = op.get("st", "py")       # python number | numpy scalar | 0-d array
+        return v if st == "py" else (np.float64(v) if isinstance(v, float) else np.int64(v)) if st == "np" else np.asarray(v)
     if kind == "array":
-        vals = [float(v) for v in op["vals"]]
+        vals = [plain_value(case, v) for v in op["vals"]]
         return np.asarray(vals) if op.get("np", True) else vals
     names = op["names"]
     n = len(op["keys"])
+    if n == 0 and index is None:
+        # an empty operand as it arises in practice: a selection of no row of a non-empty one (index dtypes kept)
+        one = copy.deepcopy(case)
+        one["obj" if side == "o" else "prm"]["keys"] = [[0] * len(names)]
+        return build(one, side).iloc[:0]
     arrays = [level_labels(case, side, op, p) for p in range(len(names))]
     rnames = [real_name(case, nm) for nm in names]
     if index is not None:
         idx = index
-    elif len(names) == 1:
-        idx = pd.Index(arrays[0], name=rnames[0])
-    else:
+    elif len(names) == 1 and not op.get("mi1"):
+        idx = pd.Index(arrays[0], name=rnames[0], tupleize_cols=False)
+    else:       # (also a MultiIndex of ONE level: what groupby / stack / xs(drop_level=False) produce)
         idx = pd.MultiIndex.from_arrays(arrays, names=rnames)
     ncols = op["ncols"]
     if kind == "series":
-        return pd.Series([cell(side, i, 0, ncols) for i in range(n)], index=idx, name=f"{side}v")
-    data = {f"{side}c{j}": [cell(side, i, j, ncols) for i in range(n)] for j in range(ncols)}
+        return pd.Series([cell_value(case, side, i, 0, ncols, n) for i in range(n)], index=idx, name=f"{side}v")
+    data = {f"{side}c{j}": [cell_value(case, side, i, j, ncols, n) for i in range(n)] for j in range(ncols)}
     return pd.DataFrame(data, index=idx)
 
 
@@ -210,51 +273,90 @@ def shared_keys_present(case):
 
 # ------------------------------------------------------------------ reference semantics (oracle side, naive)
 def ref_broadcast(case):
-    """The relational result the property asks for, computed naively: dict  frozenset((level, code)) ->
-    (obj row | None, prm row | None); or ('error', kind)."""
+    """The relation the property asks for, computed naively.  Returns (must, may): dicts
+    frozenset((level, code | None)) -> (obj row | None, prm row | None); or ('error', kind).
+    must: every pair of rows that agree on the shared levels, and every partner-less row whose own key has all
+          result levels (the other operand's payload is NaN).
+    may:  a partner-less row whose operand lacks a result level can only appear with NaN in that level (code None).
+          The property's text speaks about the rows of the RESULT; it does not say that such a row must appear
+          (pandas keeps it in a MultiIndex join and leaves it out when a flat index is joined with a MultiIndex; the
+          exact behaviour is pinned by the correspondence with the model, `keepsUnmatched`).
+    Every row of the result has to be one of these, with exactly these cells."""
     (on, orows), prm = tables(case)
     if prm[0] == "S":
-        return {frozenset(zip(on, k)): (r, [prm[1]]) for k, r in orows}
+        return {frozenset(zip(on, k)): (r, [prm[1]]) for k, r in orows}, {}
     if prm[0] == "A":
         vals = prm[1]
         if not on:      # record: one row per array element, unnamed range level
-            return {frozenset([("?p0", i)]): (orows[0][1], [v]) for i, v in enumerate(vals)}
+            return {frozenset([("?p0", i)]): (orows[0][1], [v]) for i, v in enumerate(vals)}, {}
         if len(vals) == 1:
             vals = vals * len(orows)
         if len(vals) != len(orows):
             return ("error", "ValueError")
-        return {frozenset(zip(on, k)): (r, [v]) for (k, r), v in zip(orows, vals)}
+        return {frozenset(zip(on, k)): (r, [v]) for (k, r), v in zip(orows, vals)}, {}
     pn, prows = prm[1], prm[2]
     sh = [n for n in on if n in pn]
-    out = {}
+    must, may = {}, {}
     matched_o, matched_p = set(), set()
     for i, (ko, ro) in enumerate(orows):
         for j, (kp, rp) in enumerate(prows):
             if all(ko[on.index(n)] == kp[pn.index(n)] for n in sh):
                 key = dict(zip(on, ko))
                 key.update(zip(pn, kp))
-                out[frozenset(key.items())] = (ro, rp)
+                must[frozenset(key.items())] = (ro, rp)
                 matched_o.add(i)
                 matched_p.add(j)
-    # rows without a partner: kept (with NaN for the other operand) iff their key already has every
-    # result level, i.e. iff the other operand adds no level
-    if set(pn) <= set(on):
-        for i, (ko, ro) in enumerate(orows):
-            if i not in matched_o:
-                out[frozenset(zip(on, ko))] = (ro, None)
-    if set(on) <= set(pn):
-        for j, (kp, rp) in enumerate(prows):
-            if j not in matched_p:
-                out[frozenset(zip(pn, kp))] = (None, rp)
-    return out
+    for i, (ko, ro) in enumerate(orows):
+        if i not in matched_o:
+            key = {n: None for n in pn}
+            key.update(zip(on, ko))
+            (must if set(pn) <= set(on) else may)[frozenset(key.items())] = (ro, None)
+    for j, (kp, rp) in enumerate(prows):
+        if j not in matched_p:
+            key = {n: None for n in on}
+            key.update(zip(pn, kp))
+            (must if set(on) <= set(pn) else may)[frozenset(key.items())] = (None, rp)
+    return must, may
+
+
+def documented_order(case):
+    """The row order of the result where the documentation fixes it (class docstring of the Broadcaster), as a list
+    of keys; None where it does not.  Disjoint level names: object-major cross join (consumers like
+    meanstress.py fill such a result positionally); scalar / array parameter: the object's own order; both operands
+    with the identical index (same level order, same keys in the same order): that order."""
+    (on, orows), prm = tables(case)
+    if prm[0] == "S":
+        return [frozenset(zip(on, k)) for k, _ in orows]
+    if prm[0] == "A":
+        if not on:
+            return [frozenset([("?p0", i)]) for i in range(len(prm[1]))]
+        return [frozenset(zip(on, k)) for k, _ in orows]
+    pn, prows = prm[1], prm[2]
+    if not set(on) & set(pn):
+        return [frozenset(zip(on, ko)) | frozenset(zip(pn, kp)) for ko, _ in orows for kp, _ in prows]
+    if on == pn and [k for k, _ in orows] == [k for k, _ in prows]:
+        return [frozenset(zip(on, k)) for k, _ in orows]
+    return None
 
 
 # ------------------------------------------------------------------ running the real code
+def is_nan_label(v):
+    try:
+        return v is None or v is pd.NaT or bool(v != v)
+    except Exception:
+        return False
+
+
 def decode_level(case, name, values, anon_side_pos=None):
-    """labels -> codes for one result level."""
+    """labels -> codes for one result level.  A NaN label (a row that has no value in this level: outer join) is
+    the code None."""
     out = []
     if name is None:
+        anon = None
         for v in values:
+            if is_nan_label(v):
+                out.append(None)
+                continue
             try:
                 v = int(v)
                 assert 10000 <= v < 30000
@@ -263,17 +365,26 @@ def decode_level(case, name, values, anon_side_pos=None):
                 continue
             side = "o" if v < 20000 else "p"
             pos = (v % 10000) // 1000
-            out.append((f"?{side}{pos}", v % 1000))
-        return out
+            anon = f"?{side}{pos}"
+            out.append((anon, v % 1000))
+        # NaN entries of an unnamed level: the level is told by its other entries
+        return [(anon or "?unknown", None) if x is None else x for x in out]
     lt = case.get("labels", {}).get(name, "int")
     for v in values:
+        if is_nan_label(v):
+            out.append((name, None))
+            continue
         try:
             if lt == "int":
                 c = int(v)
+                if c != v:
+                    c = repr(v)
             elif lt == "rev":
                 c = 9 - int(v)
-            elif lt == "str":
+            elif lt in ("str", "cat"):
                 c = int(str(v)[1:])
+            elif lt == "dt":
+                c = (pd.Timestamp(v) - pd.Timestamp("2020-01-01")).days
             elif lt == "interval":
                 c = int(round(v.left * 2))
             else:
@@ -284,24 +395,33 @@ def decode_level(case, name, values, anon_side_pos=None):
     return out
 
 
+def result_level_order(case):
+    """python mirror of the model's `resultNames` (only used to resolve unnamed levels by POSITION where their labels
+    cannot tell them apart: one shared Index object, or plain codes on both sides)"""
+    (on, _), prm = tables(case)
+    pn = prm[1]
+    if len(on) == 1 and len(pn) == 2 and on[0] in pn:
+        return list(pn)
+    return on + [n for n in pn if n not in on]
+
+
 def decode_index(case, index):
     """list of frozenset((level, code)) in index order; None names resolved by their label range."""
     cols = []
     positional = None
-    if case.get("share_index") and any(n is None for n in index.names):
-        # both operands carry the object's labels, so an unnamed result level cannot be told by its label
-        # range: resolve it by its position in `total_columns` (object's levels, then the parameter's own)
-        (on, _), prm = tables(case)
-        total = on + [n for n in prm[1] if n not in on]
+    if (case.get("share_index") or case.get("anon_plain")) and any(n is None for n in index.names):
+        # both operands carry the same labels, so an unnamed result level cannot be told by its label
+        # range: resolve it by its position in the result's level order
+        total = result_level_order(case)
         if len(total) == index.nlevels and all((a is None) == b.startswith("?") and (a is None or sym_name(case, a) == b)
                                                for a, b in zip(index.names, total)):
             positional = total
     tuples = list(index)
     for p in range(index.nlevels):
         # by POSITION (get_level_values(0) would return the level NAMED 0 if there is one)
-        vals = [t[p] for t in tuples] if index.nlevels > 1 else tuples
+        vals = [t[p] for t in tuples] if isinstance(index, pd.MultiIndex) else tuples
         if positional is not None and index.names[p] is None:
-            cols.append([(positional[p], int(v) % 1000) for v in vals])
+            cols.append([(positional[p], None if is_nan_label(v) else int(v) % 1000) for v in vals])
         else:
             cols.append(decode_level(case, sym_name(case, index.names[p]), list(vals)))
     return [frozenset(c[i] for c in cols) for i in range(len(index))]
@@ -341,11 +461,54 @@ def run_impl(case):
     return r
 
 
+def value_rows(case, side):
+    """original key -> list of cell VALUES, as the real operand holds them"""
+    op = case["obj" if side == "o" else "prm"]
+    (on, orows), prm = tables(case)
+    if side == "o":
+        if is_record(case):
+            n = len(op["keys"])
+            return {frozenset(): [cell_value(case, "o", i, 0, 1, n) for i in range(n)]}
+        nc = 1 if op["kind"] == "series" else op["ncols"]
+        n = len(op["keys"])
+        return {frozenset(zip(on, k)): [cell_value(case, "o", i, j, op["ncols"], n) for j in range(nc)]
+                for i, k in enumerate(op["keys"])}
+    pn = prm[1]
+    nc = 1 if op["kind"] == "series" else op["ncols"]
+    n = len(op["keys"])
+    return {frozenset(zip(pn, k)): [cell_value(case, "p", i, j, op["ncols"], n) for j in range(nc)]
+            for i, k in enumerate(op["keys"])}
+
+
+def to_ids(values, id_row, value_row):
+    """A returned row as cell IDS: where a returned value is the original's value (bit pattern, NaN = NaN) the
+    original's id, any other value as it is (it then disagrees with the model and the reference)."""
+    if value_row is None or len(value_row) != len(values):
+        return None if all(v != v for v in values) else [raw(v) for v in values]
+    return [i if same_value(v, w) else raw(v) for v, i, w in zip(values, id_row, value_row)]
+
+
+def raw(v):
+    """a returned value that is not the original's: shown as it is, and never mistaken for a cell id"""
+    return "nan" if v != v else f"~{v!r}"
+
+
+def plain_id(case, v):
+    """inverse of plain_value"""
+    mode = case.get("cells", "int")
+    if mode in ("int", "i64"):
+        return float(v)
+    c = round((float(v) - 0.007) / 1.1)
+    return float(c) if frac(c) == float(v) else raw(float(v))
+
+
 def canon_result(case, r):
-    """dict key -> (obj row | None, prm row | None) from the two returned objects, or a string describing why
-    the two results cannot be read as aligned tables."""
+    """dict key -> (obj row | None, prm row | None) from the two returned objects (rows as cell ids, None = the
+    original has no row at the restricted key and the returned cells are all NaN), or a string describing why the
+    two results cannot be read as aligned tables."""
     o, p = r.res_obj, r.res_prm
     rec = is_record(case)
+    (on, orows), prm = tables(case)
     if isinstance(o, pd.Series) and rec:
         # the record came back as a Series: one row, no level
         okeys, orow = [frozenset()], [list(np.asarray(o, dtype=float))]
@@ -375,12 +538,29 @@ def canon_result(case, r):
         return "duplicate keys in a result"
     if set(okeys) != set(pkeys):
         return f"key sets differ: object {sorted(map(sk, okeys), key=str)[:4]} parameter {sorted(map(sk, pkeys), key=str)[:4]}"
+    oid = {frozenset(zip(on, k)): row for k, row in orows}
+    oval = value_rows(case, "o")
+    if prm[0] == "T":
+        pn = prm[1]
+        pid_ = {frozenset(zip(pn, k)): row for k, row in prm[2]}
+        pval = value_rows(case, "p")
     po = dict(zip(pkeys, prow))
     out = {}
     for k, ro in zip(okeys, orow):
         rp = po[k]
-        out[k] = (None if all(v != v for v in ro) else ro, None if all(v != v for v in rp) else rp)
+        ko = frozenset((n, v) for n, v in k if n in on)
+        ro = to_ids(ro, oid.get(ko), oval.get(ko))
+        if prm[0] == "T":
+            kp = frozenset((n, v) for n, v in k if n in pn)
+            rp = to_ids(rp, pid_.get(kp), pval.get(kp))
+        else:
+            rp = [plain_id(case, v) for v in rp]
+        out[k] = (ro, rp)
     return out
+
+
+def astuple(x):
+    return x if isinstance(x, tuple) else (x,)
 
 
 def sk(key):
@@ -389,6 +569,8 @@ def sk(key):
 
 
 def fmt(v):
+    if isinstance(v, str):
+        return v
     if v != v:
         return "nan"
     if v == int(v):
@@ -400,7 +582,7 @@ def show_table(d, which):
     items = []
     for k, rows in d.items():
         row = rows[which]
-        ks = ",".join(f"{n}={c}" for n, c in sk(k))
+        ks = ",".join(f"{n}={'nan' if c is None else c}" for n, c in sk(k))
         items.append(f"{ks}>{'nan' if row is None else ','.join(fmt(v) for v in row)}")
     return " ".join(sorted(items))
 
@@ -437,7 +619,7 @@ def spec_tokens(case):
 
 # ------------------------------------------------------------------ generators
 NAMES = ["x", "y", "z", "w", "u"]
-LTYPES = ["int", "int", "rev", "str", "float", "interval"]
+LTYPES = ["int", "int", "rev", "str", "float", "interval", "dt", "cat"]
 
 
 def gen_names(rng, lay):
@@ -567,7 +749,23 @@ def gen_table_case(rng, lay=None, present=None, size=None):
             "labels": labels}
     if rng.random() < 0.35:
         case["name_types"] = gen_name_types(rng, sorted(labels))
+    decorate(rng, case)
     return case
+
+
+CELL_MODES = ["int", "frac", "frac", "i64", "nan1"]
+
+
+def decorate(rng, case):
+    """value kinds of the cells, one-level MultiIndex operands, plain codes in unnamed levels"""
+    case["cells"] = rng.choice(CELL_MODES)
+    for side in ("obj", "prm"):
+        op = case[side]
+        if "names" in op and len(op["names"]) == 1 and rng.random() < 0.2:
+            op["mi1"] = True
+    if not case.get("share_index") and rng.random() < 0.25 and \
+            any(None in case[sd].get("names", []) for sd in ("obj", "prm")):
+        case["anon_plain"] = True
 
 
 def gen_name_types(rng, named):
@@ -587,32 +785,47 @@ def gen_name_types(rng, named):
     return out
 
 
+def gen_scalar(rng):
+    return {"kind": "scalar", "v": rng.randint(-5, 5), "st": rng.choice(["py", "py", "np", "0d"])}
+
+
 def gen_nonpandas_case(rng):
     """Series / DataFrame object against a scalar or an array."""
     okind = rng.choice(["series", "frame"])
     n = rng.randint(1, 6)
+    cells = rng.choice(CELL_MODES)
     if okind == "series":
-        # a record; `_broadcasted_dataframe` needs string entries for arrays
-        named = rng.random() < 0.4
-        obj = {"kind": "series", "names": ["x" if named else None], "keys": [[i] for i in range(n)], "ncols": 1}
-        labels = {"x": "str"}
+        # a record (e.g. one Woehler curve): entries mostly strings, but also ints / floats / tuples and several levels
+        nl = rng.choice([1, 1, 1, 2, 3])
+        names = rng.sample(NAMES, nl)
         if rng.random() < 0.5:
-            return {"obj": obj, "prm": {"kind": "scalar", "v": rng.randint(-5, 5)}, "labels": labels}
-        m = rng.randint(1, 6)
-        return {"obj": obj, "prm": {"kind": "array", "vals": [rng.randint(-9, 9) for _ in range(m)], "np": rng.random() < 0.5},
-                "labels": labels}
+            names = add_unnamed(rng, names, [])
+        keys = [list(k) for k in distinct_rows(rng, n, nl, 3 if nl > 1 else max(n, 2))] if nl > 1 else [[i] for i in range(n)]
+        obj = {"kind": "series", "names": names, "keys": keys, "ncols": 1}
+        if nl == 1 and rng.random() < 0.15:
+            obj["mi1"] = True
+        labels = {nm: rng.choice(LTYPES) for nm in names if nm is not None}
+        case = {"obj": obj, "labels": labels, "cells": cells, "rec_labels": rng.choice(["str", "str", "int", "float", "tuple"])}
+        if rng.random() < 0.4:
+            case["prm"] = gen_scalar(rng)
+        else:
+            m = rng.randint(1, 6)
+            case["prm"] = {"kind": "array", "vals": [rng.randint(-9, 9) for _ in range(m)], "np": rng.random() < 0.5}
+        return case
     nl = rng.randint(1, 3)
     names = rng.sample(NAMES, nl)
     if rng.random() < 0.3:
         names = add_unnamed(rng, names, [])
     keys = [list(k) for k in distinct_rows(rng, n, nl, 3 if nl > 1 else max(n, 2))]
     obj = {"kind": "frame", "names": names, "keys": keys, "ncols": rng.randint(1, 3)}
+    if nl == 1 and rng.random() < 0.2:
+        obj["mi1"] = True
     labels = {nm: rng.choice(LTYPES) for nm in names if nm is not None}
     if rng.random() < 0.4:
-        return {"obj": obj, "prm": {"kind": "scalar", "v": rng.randint(-5, 5)}, "labels": labels}
+        return {"obj": obj, "prm": gen_scalar(rng), "labels": labels, "cells": cells}
     m = rng.choice([len(keys), len(keys), len(keys), 1, rng.randint(1, 7)])
     return {"obj": obj, "prm": {"kind": "array", "vals": [rng.randint(-9, 9) for _ in range(m)], "np": rng.random() < 0.5},
-            "labels": labels}
+            "labels": labels, "cells": cells}
 
 
 def gen_record_case(rng):
@@ -626,8 +839,12 @@ def gen_record_case(rng):
     m = rng.randint(1, 6)
     keys = [list(k) for k in distinct_rows(rng, m, nl, 3 if nl > 1 else max(m, 2))]
     pkind = rng.choice(["series", "frame"])
-    return {"obj": obj, "prm": {"kind": pkind, "names": names, "keys": keys, "ncols": 1 if pkind == "series" else rng.randint(1, 2)},
-            "labels": {nm: rng.choice(LTYPES) for nm in names if nm is not None}}
+    case = {"obj": obj, "prm": {"kind": pkind, "names": names, "keys": keys, "ncols": 1 if pkind == "series" else rng.randint(1, 2)},
+            "labels": {nm: rng.choice(LTYPES) for nm in names if nm is not None},
+            "rec_labels": rng.choice(["str", "str", "int", "float", "tuple"]), "cells": rng.choice(CELL_MODES)}
+    if nl == 1 and rng.random() < 0.2:
+        case["prm"]["mi1"] = True
+    return case
 
 
 def gen_shared_index_case(rng, names=None, keys=None):
@@ -646,7 +863,8 @@ def gen_shared_index_case(rng, names=None, keys=None):
     pkind = rng.choice(["series", "frame"])
     return {"obj": {"kind": okind, "names": list(names), "keys": keys, "ncols": 1 if okind == "series" else rng.randint(1, 2)},
             "prm": {"kind": pkind, "names": list(names), "keys": [list(k) for k in keys], "ncols": 1 if pkind == "series" else rng.randint(1, 2)},
-            "labels": {nm: rng.choice(LTYPES) for nm in names if nm is not None}, "share_index": True}
+            "labels": {nm: rng.choice(LTYPES) for nm in names if nm is not None}, "share_index": True,
+            "cells": rng.choice(CELL_MODES)}
 
 
 SHARED_LAYOUTS = [[None], [None, None], [None, "z"], ["z", None], ["x"], ["x", "z"], [None, "z", None]]
@@ -729,6 +947,68 @@ def contained_multi_missing(case):
     return bool(b - a) if lay == "prm-contained" else bool(a - b)
 
 
+def flat_vs_multi(own, other):
+    """pandas joins a one-level index with a MultiIndex that has this level 'on the level': partner-less labels of
+    the one-level operand are left out (model: dropsUnmatched)"""
+    return len(own) == 1 and len(other) >= 2 and own[0] in other
+
+
+def nan_level_rows(case):
+    """Some partner-less row is kept by the outer join although its operand lacks a level of the result: its key is
+    NaN there.  On the unrepaired tree `restore_real_index` raises IndexError on exactly these pairs."""
+    (on, orows), prm = tables(case)
+    if prm[0] != "T":
+        return False
+    pn, prows = prm[1], prm[2]
+    sh = [n for n in on if n in pn]
+    if not sh:
+        return False
+    a = {tuple(k[on.index(n)] for n in sh) for k, _ in orows}
+    b = {tuple(k[pn.index(n)] for n in sh) for k, _ in prows}
+    obj_row = bool(a - b) and not set(pn) <= set(on) and not flat_vs_multi(on, pn)
+    prm_row = bool(b - a) and not set(on) <= set(pn) and not flat_vs_multi(pn, on)
+    return obj_row or prm_row
+
+
+def record_entries_not_strings(case):
+    """A Series object (a record) whose index entries are not all strings, against an array"""
+    o = case["obj"]
+    if not is_record(case) or case["prm"]["kind"] != "array":
+        return False
+    return len(o["names"]) > 1 or bool(o.get("mi1")) or case.get("rec_labels", "str") != "str"
+
+
+def one_level_multiindex(case):
+    """An operand with a MultiIndex of ONE level on the table path"""
+    if case["prm"]["kind"] not in ("series", "frame"):
+        return False
+    if is_record(case):
+        return False
+    return bool(case["obj"].get("mi1") or case["prm"].get("mi1"))
+
+
+# Findings with a repair under tools/fixes that is modelled as applied.  class -> (predicate on the case, exception
+# type, start of the message): on a tree without the repair the call raises exactly that; the correspondence tolerates
+# exactly this answer for exactly these cases while the class is OPEN in KNOWN_FINDINGS.jsonl, the oracle reports the
+# class.  With the repair committed (status fixed) nothing is tolerated any more.
+PENDING = {
+    "record-nonstring-entries": (record_entries_not_strings, "TypeError", ("keywords must be strings",)),
+    "one-level-multiindex": (one_level_multiindex, "KeyError", ("None",)),
+    # (indexing an Index with a float array that holds NaN / with an all-NaN array)
+    "contained-multi-shared-missing-key": (nan_level_rows, "IndexError", ("only integers, slices", "arrays used as indices must be of integer")),
+}
+
+
+def pending_class(case, r):
+    """the PENDING class whose mechanism explains that the call raised, or None"""
+    if not r.error:
+        return None
+    for klass, (pred, etype, msg) in PENDING.items():
+        if r.error == etype and r.errmsg.startswith(msg) and pred(case):   # (msg: tuple of admissible starts)
+            return klass
+    return None
+
+
 REPAIRED_INT_LEVEL_NAMES = True
 
 
@@ -767,10 +1047,13 @@ def unchanged(before, after):
             return "index"
         if isinstance(before, pd.DataFrame) and list(before.columns) != list(after.columns):
             return "columns"
-        if not np.array_equal(np.asarray(before, dtype=float), np.asarray(after, dtype=float)):
+        if not np.array_equal(np.asarray(before, dtype=float), np.asarray(after, dtype=float), equal_nan=True):
             return "values"
+        if isinstance(before, pd.DataFrame) and list(before.dtypes) != list(after.dtypes) or \
+                isinstance(before, pd.Series) and before.dtype != after.dtype:
+            return "dtype"
         return None
-    if not np.array_equal(np.asarray(before, dtype=float), np.asarray(after, dtype=float)):
+    if not np.array_equal(np.asarray(before, dtype=float), np.asarray(after, dtype=float), equal_nan=True):
         return "values"
     return None
 
@@ -778,7 +1061,8 @@ def unchanged(before, after):
 # ------------------------------------------------------------------ the consumer: allowable cycles
 def woehler_case(rng):
     return {"kind": "woehler", "layout": rng.choice(["disjoint", "disjoint", "equal", "contained", "overlapping",
-                                                     "record-series", "record-array", "record-scalar"]),
+                                                     "record-series", "record-array", "record-scalar",
+                                                     "frame-scalar", "frame-array", "frame-pf-array"]),
             "n_e": rng.randint(1, 5), "n_s": rng.randint(1, 5), "seed": rng.randrange(1 << 30),
             "k2": rng.choice(["none", "inf", "value"]), "shuffle": rng.random() < 0.5,
             "op": rng.choice(["cycles", "cycles", "load"]), "pf": rng.choice([0.5, 0.1, 0.9, 0.025]),
@@ -798,27 +1082,64 @@ COLLECTIVE_RAISE_VARIANTS = [
 
 
 def collective_raise_oracle(case):
-    """scale / shift of a load collective whose alignment raises inside the Broadcaster (repeated index labels):
-    whatever the call does, the caller's collective and operand are what they were (deep copies before)."""
+    """scale / shift of a load collective (signal accessors that call self.broadcast()).  Whatever the call does -
+    also when the alignment raises inside the Broadcaster (repeated index labels) - the caller's collective and
+    operand are what they were (deep copies before); and when it returns, every row of the result is the
+    collective's row scaled / shifted with the operand's value for that row's key.
+    Optional field "factor": "series" (default; the variant's index) | "scalar" | "array" (positional)."""
     import pylife.stress.collective  # noqa: F401
     ci, fi = COLLECTIVE_RAISE_VARIANTS[case["variant"]]
     ci, fi = ci(), fi()
-    lc = pd.DataFrame({"from": np.arange(len(ci), dtype=float), "to": np.arange(len(ci), dtype=float) + 2.0}, index=ci)
-    f = pd.Series(np.arange(len(fi), dtype=float) + 2.0, index=fi)
+    lc = pd.DataFrame({"from": np.arange(len(ci), dtype=float) * 1.1 + 0.3, "to": np.arange(len(ci), dtype=float) * 0.7 + 2.0}, index=ci)
+    fkind = case.get("factor", "series")
+    if fkind == "series":
+        f = pd.Series(np.arange(len(fi), dtype=float) * 0.9 + 2.0, index=fi)
+    elif fkind == "scalar":
+        f = 2.5
+    else:
+        f = np.arange(len(ci), dtype=float) * 0.9 + 2.0
     lc0, f0 = copy.deepcopy(lc), copy.deepcopy(f)
     raised = None
+    res = None
     try:
         with warnings.catch_warnings():
             warnings.simplefilter("ignore")
-            getattr(lc.load_collective, case["op"])(f)
+            res = getattr(lc.load_collective, case["op"])(f).to_pandas()
     except Exception as e:
         raised = type(e).__name__
     for name, b, a in (("collective", lc0, lc), ("operand", f0, f)):
         u = unchanged(b, a)
         if u:
+            if name == "collective" and fkind != "series" and u == "values" and res is not None and \
+                    np.array_equal(np.asarray(a, dtype=float), np.asarray(res, dtype=float)):
+                return (f"load_collective.{case['op']}({fkind}) wrote the result into the caller's collective: 'from' was "
+                        f"{list(b['from'])[:3]}, is {list(a['from'])[:3]} (the Broadcaster returns the signal's own object for a "
+                        "scalar / array operand and the accessor assigns to it)", "collective-scale-shift-writes-into-collective")
             return (f"load_collective.{case['op']}: the caller's {name} was modified ({u}): index now {list(a.index)[:4]} "
                     f"names {list(a.index.names)}" + (f"; the call raised {raised}" if raised else ""),
                     "inputs-modified-after-raise" if raised else "inputs-modified")
+    if raised or res is None:
+        return None
+    # the values, key by key
+    fn = (lambda x, y: x * y) if case["op"] == "scale" else (lambda x, y: x + y)
+    want = {}
+    if fkind == "series":
+        shared = [n for n in f0.index.names if n in lc0.index.names]
+        if shared:
+            return None     # (only the disjoint variant returns; repeated labels are the raising variants)
+        for ko, row in zip(lc0.index, lc0.to_numpy()):
+            for kp, v in zip(f0.index, f0.to_numpy()):
+                want[astuple(ko) + astuple(kp)] = (fn(row[0], v), fn(row[1], v))
+    else:
+        vals = [f0] * len(lc0) if fkind == "scalar" else list(f0)
+        for ko, row, v in zip(lc0.index, lc0.to_numpy(), vals):
+            want[astuple(ko)] = (fn(row[0], v), fn(row[1], v))
+    got = {astuple(k): (float(r[0]), float(r[1])) for k, r in zip(res.index, res[["from", "to"]].to_numpy())}
+    if list(got) != list(want):
+        return (f"load_collective.{case['op']}({fkind}): result keys {list(got)[:5]} != expected {list(want)[:5]}", "consumer-keys")
+    for k in want:
+        if not (core.close(got[k][0], want[k][0], rtol=1e-15) and core.close(got[k][1], want[k][1], rtol=1e-15)):
+            return (f"load_collective.{case['op']}({fkind}) at {k}: (from, to) = {got[k]} != {want[k]}", "consumer-value")
     return None
 
 
@@ -826,17 +1147,24 @@ class ScalarPathError(Exception):
     pass
 
 
-def haigh_oracle(case):
-    """meanstress.py: the FKM-Goodman Haigh diagram of a DataFrame of (M, M2) per element (built on a cross-join
-    broadcast of the element index against the R intervals) == the diagram of each element alone."""
+def haigh_frame(case):
     import random
-    from pylife.strength.meanstress import HaighDiagram
     r = random.Random(case["seed"])
     n = case["n_e"]
     labels = r.sample(range(10), n)
     Ms = [r.choice([0.1, 0.2, 0.3, 0.45]) for _ in range(n)]
     M2s = [r.choice([0.02, 0.05, 0.1, 0.15]) for _ in range(n)]
-    df = pd.DataFrame({"M": Ms, "M2": M2s}, index=pd.Index(labels, name="element"))
+    cols = {"M": Ms, "M2": M2s} if case.get("m2", True) else {"M": Ms}
+    return r, labels, pd.DataFrame(cols, index=pd.Index(labels, name="element"))
+
+
+def haigh_oracle(case):
+    """meanstress.py: the FKM-Goodman Haigh diagram of a DataFrame of (M, M2) per element (built on a cross-join
+    broadcast of the element index against the R intervals) == the diagram of each element alone == the definition
+    (0 beyond R = 1, M up to R = 0, M2 - default M / 3 - between); the caller's frame is what it was."""
+    from pylife.strength.meanstress import HaighDiagram
+    r, labels, df = haigh_frame(case)
+    n = len(labels)
     df0 = df.copy(deep=True)
     try:
         with warnings.catch_warnings():
@@ -847,9 +1175,119 @@ def haigh_oracle(case):
         return (f"HaighDiagram.fkm_goodman raised {type(e).__name__}: {str(e)[:100]}", "consumer-raises")
     if list(h.index.names) != ["element", "R"] or len(h) != 3 * n:
         return (f"Haigh diagram of {n} elements: levels {list(h.index.names)}, {len(h)} rows", "consumer-keys")
+    if [k[0] for k in h.index] != [e for e in labels for _ in range(3)]:
+        return (f"Haigh diagram of elements {labels}: rows are not element-major {[k[0] for k in h.index][:6]}", "consumer-keys")
     for (e, iv), v in h.items():
         if not core.close(float(singles[e][iv]), float(v), rtol=1e-15):
             return (f"Haigh diagram at element {e}, R {iv}: {v} != single-element result {singles[e][iv]}", "consumer-value")
+        M = float(df0.loc[e, "M"])
+        want = 0.0 if iv.left == 1.0 else M if iv.right == 0.0 else (float(df0.loc[e, "M2"]) if "M2" in df0 else M / 3.0)
+        if not core.close(want, float(v), rtol=1e-15):
+            return (f"Haigh diagram at element {e}, R {iv}: {v} != {want} (M {M}, M2 {'given' if 'M2' in df0 else 'default M/3'})", "consumer-value")
+    u = unchanged(df0, df)
+    if u:
+        return (f"HaighDiagram.fkm_goodman modified the frame it was given ({u}): columns now {list(df.columns)}",
+                "haigh-callers-frame-modified")
+    return None
+
+
+def haigh_five_oracle(case):
+    """meanstress.py HaighDiagram.five_segment of a frame (one row of M0..M4, R12, R23 per element; the element rows are
+    broadcast to the (element, R) rows): every element's five slopes sit on that element's five intervals."""
+    import random
+    from pylife.strength.meanstress import HaighDiagram
+    r = random.Random(case["seed"])
+    n = case["n_e"]
+    labels = r.sample(range(10), n)
+    rows = [{"M0": r.choice([0.5, 0.4, 0.45]), "M1": r.choice([0.3, 0.2, 0.25]), "M2": r.choice([0.2, 0.15]),
+             "M3": r.choice([0.1, 0.05]), "M4": r.choice([0.0, 0.01, 0.02]),
+             "R12": r.choice([0.2, 0.3, 0.25]), "R23": r.choice([0.6, 0.7, 0.8])} for _ in range(n)]
+    df = pd.DataFrame(rows, index=pd.Index(labels, name="element"))
+    df0 = df.copy(deep=True)
+    try:
+        with warnings.catch_warnings():
+            warnings.simplefilter("ignore")
+            h = HaighDiagram.five_segment(df).to_pandas()
+    except Exception as e:
+        return (f"HaighDiagram.five_segment raised {type(e).__name__}: {str(e)[:100]}", "consumer-raises")
+    u = unchanged(df0, df)
+    if u:
+        return (f"HaighDiagram.five_segment modified the frame it was given ({u})", "consumer-inputs-modified")
+    want = {}
+    for e, row in zip(labels, rows):
+        want[(e, pd.Interval(1.0, np.inf))] = row["M4"]
+        want[(e, pd.Interval(-np.inf, 0.0))] = row["M0"]
+        want[(e, pd.Interval(0.0, row["R12"]))] = row["M1"]
+        want[(e, pd.Interval(row["R12"], row["R23"]))] = row["M2"]
+        want[(e, pd.Interval(row["R23"], 1.0))] = row["M3"]
+    got = {k: float(v) for k, v in h.items()}
+    if list(h.index.names) != ["element", "R"] or len(got) != len(h) or set(got) != set(want):
+        return (f"five-segment Haigh diagram of {n} elements: levels {list(h.index.names)}, keys {list(got)[:4]}", "consumer-keys")
+    for k, v in want.items():
+        if got[k] != v:
+            return (f"five-segment Haigh diagram at {k}: {got[k]} != {v}", "consumer-value")
+    return None
+
+
+def haigh_transform_oracle(case):
+    """meanstress.py HaighDiagram.transform (the accessor path with `droplevel=['R']`): a per-element Haigh diagram
+    against a load collective == every element's own diagram against its cycles."""
+    import pylife.stress.collective  # noqa: F401
+    from pylife.strength.meanstress import HaighDiagram
+    r, labels, df = haigh_frame(dict(case, m2=True))
+    nc = case["n_c"]
+    R_goal = case["R_goal"]
+    if case["cycles"] == "disjoint":      # every cycle for every element
+        cidx = pd.Index(r.sample(range(20), nc), name="cycle")
+        pairs = [(e, c) for e in labels for c in cidx]
+    else:                                  # cycles per element
+        # (every element has a cycle: the quantifier's "every shared-level key present in both operands")
+        pairs = [(e, c) for e in labels for c in range(nc) if c == 0 or r.random() < 0.7]
+        r.shuffle(pairs)
+        cidx = pd.MultiIndex.from_tuples(pairs, names=["element", "cycle"])
+    m = len(cidx)
+    rng_ = [float(r.choice([40.0, 100.0, 150.0, 200.0, 333.0])) for _ in range(m)]
+    mean = [float(r.choice([-120.0, -20.0, 0.0, 10.0, 50.0, 200.0])) for _ in range(m)]
+    cyc = pd.DataFrame({"range": rng_, "mean": mean}, index=cidx)
+    cyc0, df0 = cyc.copy(deep=True), df.copy(deep=True)
+    try:
+        with warnings.catch_warnings():
+            warnings.simplefilter("ignore")
+            hd = HaighDiagram.fkm_goodman(df.copy())
+            hd0 = hd.to_pandas().copy(deep=True)
+            res = hd.transform(cyc, R_goal)
+    except Exception as e:
+        return (f"HaighDiagram.transform raised {type(e).__name__}: {str(e)[:120]} ({case['cycles']}, {len(labels)} elements, {m} cycles)", "consumer-raises")
+    for name, b, a in (("collective", cyc0, cyc), ("Haigh diagram", hd0, hd.to_pandas())):
+        u = unchanged(b, a)
+        if u:
+            return (f"HaighDiagram.transform modified the {name} ({u})", "consumer-inputs-modified")
+    if not isinstance(res, pd.DataFrame) or sorted(res.index.names) != ["cycle", "element"] or list(res.columns) != ["range", "mean"]:
+        return (f"HaighDiagram.transform: result levels {list(getattr(res, 'index', pd.Index([])).names)}", "consumer-levels")
+    ie, ic = res.index.names.index("element"), res.index.names.index("cycle")
+    got = {(k[ie], k[ic]): (float(v[0]), float(v[1])) for k, v in zip(res.index, res.to_numpy())}
+    if len(got) != len(res) or set(got) != set(pairs):
+        return (f"HaighDiagram.transform keys {sorted(got)[:5]} != expected {sorted(pairs)[:5]}", "consumer-keys")
+    try:
+        with warnings.catch_warnings():
+            warnings.simplefilter("ignore")
+            for e in labels:
+                mine = [(e2, c) for (e2, c) in pairs if e2 == e]
+                if not mine:
+                    continue
+                if case["cycles"] == "disjoint":
+                    ce = cyc0
+                else:
+                    ce = cyc0.loc[[p for p in mine]].droplevel("element")
+                single = HaighDiagram.fkm_goodman(df0.loc[e].copy()).transform(ce, R_goal)
+                for c, v in zip(single.index, single.to_numpy()):
+                    c = c if not isinstance(c, tuple) else c[-1]
+                    g = got[(e, c)]
+                    if not (core.close(g[0], float(v[0]), rtol=1e-12, atol=1e-12) and core.close(g[1], float(v[1]), rtol=1e-12, atol=1e-12)):
+                        return (f"HaighDiagram.transform at element {e}, cycle {c}: (range, mean) = {g} != single-element result "
+                                f"{(float(v[0]), float(v[1]))} (R_goal {R_goal}, {case['cycles']})", "consumer-value")
+    except Exception as e:
+        return (f"the single-element Haigh transform raised {type(e).__name__}: {str(e)[:100]}", "consumer-raises")
     return None
 
 
@@ -903,12 +1341,16 @@ def _woehler_oracle(case):
         if scatter in ("TS", "both"):
             c["TS"] = r.choice([1.1, 1.25, 1.5])
 
-    def call(signal, arg):
-        return getattr(signal, op)(arg, pf) if (pf != 0.5 or "pf" in case) else getattr(signal, op)(arg)
+    pfs = None      # layout frame-pf-array: one failure probability per element
 
-    def scalar_result(c, ld):
+    def call(signal, arg, pfv=None):
+        if pfv is None:
+            pfv = pf if pfs is None else np.asarray(pfs)
+        return getattr(signal, op)(arg, pfv) if (pf != 0.5 or "pf" in case or pfs is not None) else getattr(signal, op)(arg)
+
+    def scalar_result(c, ld, pfv=None):
         try:
-            return float(np.asarray(call(pd.Series(dict(c)).woehler, ld)))
+            return float(np.asarray(call(pd.Series(dict(c)).woehler, ld, pf if pfv is None else pfv)))
         except Exception as e:
             raise ScalarPathError(f"{type(e).__name__}: {str(e)[:100]}")
 
@@ -927,6 +1369,21 @@ def _woehler_oracle(case):
         lds = [loads_of() for _ in range(ns)]
         arg = np.asarray(lds)
         expected = {(i,): scalar_result(curves[0], l) for i, l in enumerate(lds)}
+    elif lay in ("frame-scalar", "frame-array", "frame-pf-array"):
+        # a DataFrame signal (one curve per element) against a scalar / a positional array / per-element pf values
+        wcobj = pd.DataFrame(curves, index=pd.Index(el_labels, name=EL))
+        if lay == "frame-array":
+            lds = [loads_of() for _ in range(ne)]
+            arg = np.asarray(lds) if r.random() < 0.5 else list(lds)
+            expected = {(i,): scalar_result(curves[i], lds[i]) for i in range(ne)}
+        elif lay == "frame-scalar":
+            arg = loads_of()
+            expected = {(i,): scalar_result(curves[i], arg) for i in range(ne)}
+        else:
+            arg = loads_of()
+            pfs = [r.choice([0.5, 0.1, 0.9, 0.025, 0.3]) for _ in range(ne)]
+            expected = {(i,): scalar_result(curves[i], arg, pfs[i]) for i in range(ne)}
+        ns = ne
     else:
         wc = pd.DataFrame(curves, index=pd.Index(el_labels, name=EL))
         if case["shuffle"]:
@@ -989,7 +1446,7 @@ def _woehler_oracle(case):
                         continue
                     if not bit_equal(x, y):
                         diff += f" {col}: {x[:3].tolist()} -> {y[:3].tolist()};"
-            return (f"{what}(…, failure_probability={pf}) modified the {name} ({u}) ({lay}, scatter {scatter}):{diff}",
+            return (f"{what}(…, failure_probability={pf if pfs is None else pfs}) modified the {name} ({u}) ({lay}, scatter {scatter}):{diff}",
                     "consumer-inputs-modified")
     # ---- the result, key by key, against the scalar computation
     if want_names is None:
@@ -1034,7 +1491,7 @@ def _woehler_oracle(case):
     return None
 
 
-CONSUMER_KINDS = ("woehler", "haigh", "collective-raise")
+CONSUMER_KINDS = ("woehler", "haigh", "haigh-five", "haigh-transform", "collective-raise")
 
 
 # ------------------------------------------------------------------ the property module
@@ -1049,54 +1506,77 @@ class C13(Prop):
         "PylifeVerif.C13.broadcast_lookup",
         "PylifeVerif.C13.broadcast_scalar",
         "PylifeVerif.C13.prmTbl_array",
+        "PylifeVerif.C13.broadcast_array",
         "PylifeVerif.C13.broadcast_nothing_invented",
         "PylifeVerif.C13.broadcast_pairs_complete",
+        "PylifeVerif.C13.unmatched_obj_kept",
+        "PylifeVerif.C13.unmatched_prm_kept",
+        "PylifeVerif.C13.obj_row_represented_iff",
+        "PylifeVerif.C13.prm_row_represented_iff",
+        "PylifeVerif.C13.broadcast_no_row_lost_partial",
+        "PylifeVerif.C13.obj_row_lost_iff",
+        "PylifeVerif.C13.obj_represented_of_disjoint",
+        "PylifeVerif.C13.joinRows_key_inj",
+        "PylifeVerif.C13.broadcast_keys_nodup",
         "PylifeVerif.C13.broadcast_cross_join_card",
-        "PylifeVerif.C13.raises_false_of_present",
-        "PylifeVerif.C13.raises_false_of_same_levels",
-        "PylifeVerif.C13.raises_false_of_disjoint",
-        "PylifeVerif.C13.raises_false_of_contained_single",
-        "PylifeVerif.C13.broadcast_total_partial",
-        "PylifeVerif.C13.raises_at_witness",
+        "PylifeVerif.C13.broadcast_total",
     ]
     PARTIAL = {
-        "PylifeVerif.C13.broadcast_total_partial":
-            "the full statement (for EVERY layout of the quantifier the two aligned tables are returned) fails where one "
-            "level-name set is strictly contained in the other, two or more levels are shared and the operand with fewer "
-            "levels holds a key the other has not: the real code raises IndexError (finding class "
-            "contained-multi-shared-missing-key; the model rejects the same pairs, kernel-checked at raises_at_witness). "
-            "The theorem covers: every shared-level key present in both operands (any layout), equal name sets with any "
-            "key sets, disjoint names, containment with one shared level.",
+        "PylifeVerif.C13.broadcast_no_row_lost_partial":
+            "completeness ('every row of both operands is represented in the result') is not in the property's text, which "
+            "speaks about the rows of the result; it is proved under the guard 'the row has a partner, or a level is shared and "
+            "the row's operand is not a one-level index joined with a MultiIndex'.  The unguarded statement is false: the "
+            "partner-less rows of a ONE-level operand whose level is contained in the other operand's >= 2 levels are left out "
+            "(pandas' join on a level; kernel-checked at PylifeVerif.C13.row_lost_at_witness, characterised exactly by "
+            "obj_row_lost_iff / obj_row_represented_iff / prm_row_represented_iff).  The oracle accepts such a row only absent "
+            "or with NaN in the levels it lacks and counts both (stats partnerless_rows_lacking_a_level).",
     }
     RULE = ("case = (object Series/DataFrame, parameter scalar/array/Series/DataFrame) given by level names (None = unnamed), "
-            "ordered lists of distinct integer key codes, column counts and a label type per level; quick: all ordered key "
-            "lists up to 2 rows over 2 codes for 12 level-name layouts + seeded random cases (1-3 levels, 1-6 rows, names "
-            "equal / permuted / disjoint / contained / overlapping with every shared key present, unnamed levels, equal "
-            "lengths, int / reversed-int / string / float labels) + scalar / array / record cases + allowable-cycles cases; "
-            "correspondence compares the two returned objects as sorted key->cells sets and the result level order with the "
-            "Lean model; non-trivial = a pandas parameter whose level names are not identical to the object's, or an array; "
-            "distinct by full case")
+            "ordered lists of distinct integer key codes, column counts, a label type per level, a cell-value kind (whole / "
+            "non-representable fractions / int64 / with NaN cells), one-level indices optionally as MultiIndex; quick: all "
+            "ordered key lists up to 2 rows over 2 codes for 12 level-name layouts + one-level-MultiIndex layouts + Series "
+            "objects with non-string entries against arrays + seeded random cases (1-3 levels, 1-6 rows, names equal / "
+            "permuted / disjoint / contained / overlapping with every shared key present, unnamed levels, equal lengths, int / "
+            "reversed-int / string / float / interval labels) + scalar / array / record cases + consumer cases (allowable "
+            "cycles, Haigh diagram, Haigh transform with droplevel); correspondence compares the two returned objects as sorted "
+            "key->cells sets and the result level order with the Lean model; non-trivial = a pandas parameter whose level "
+            "names are not identical to the object's, or an array; distinct by full case")
     ASSUMPTIONS = [
         "C13: the theorems are about a relational model of what the Broadcaster returns (Model/Broadcast.lean), they are close "
         "to the model's definition; pandas (align / join / reindex, MultiIndex) is not modelled - the tie to the real code is "
         "this run's correspondence only",
         "C13: how a pandas operand pair is read as tables (Series object = record for non-pandas parameters or a single "
-        "unnamed level; unnamed levels are fresh names; cells as payload lists) is harness code (harness/c13.py: tables)",
-        "C13: 'neither operand is modified' (values, index labels and order, level names) is not a theorem: it is compared "
-        "on the real code before / after every call (deep copies) by the oracle",
-        "C13: row order is not modelled; that both returned objects have the identical index, order included, is checked on "
-        "the real code by the oracle; keys within an operand are distinct (the quantifier speaks of key sets); "
-        "operands are non-empty; `droplevel` is not part of the property (the parameter is then deliberately not aligned)",
-        "C13: the model describes the code after the repair tools/fixes/C13-align-equal-values.diff (finding F-6)",
+        "unnamed level; unnamed levels are fresh names; cells as payload lists; cell VALUES mapped to cell ids by exact "
+        "comparison with the originals) is harness code (harness/c13.py: tables, canon_result)",
+        "C13: 'neither operand is modified' (values, dtypes, index labels and order, level names) is not a theorem: it is "
+        "compared on the real code before / after every call (deep copies) by the oracle; the verdict is for the installed "
+        "pandas (see stats.pandas: version, copy-on-write) - pyLife allows pandas >= 1.4, where a shallow copy shares data",
+        "C13: row order is not modelled (the correspondence compares sorted key->cells sets); on the real code the oracle "
+        "checks that both returned objects have the identical index, order included, and the documented order (object-major "
+        "cross join, object's order for scalars / arrays, the common order for identical indices); keys within an operand "
+        "are distinct (the quantifier speaks of key sets; pandas refuses to join duplicate keys, the theorems carry "
+        "Tbl.KeysNodup); an operand without rows is generated on the exhaustive layouts only",
+        "C13: `droplevel` (HaighDiagram.transform) is not in the model; it is observed through the consumer oracle "
+        "haigh-transform only",
+        "C13: the model describes the code after the repairs tools/fixes/C13-align-equal-values.diff (F-6, committed), "
+        "C13-outer-join-nan-levels.diff, C13-one-level-multiindex.diff, C13-record-entries-any-label.diff; while the finding "
+        "class of an uncommitted repair is open in KNOWN_FINDINGS.jsonl, the correspondence tolerates exactly the unrepaired "
+        "exception on exactly the cases of that class (harness/c13.py: PENDING)",
+        "C13: exhaustive = all ordered key lists with <= 2 (thorough: 3) rows over 2 codes on the listed level-name layouts "
+        "only; everything else is sampled",
     ]
 
     def __init__(self):
         self.stats = {"by_layout": {}, "by_kinds": {}, "sizes": {}, "errors": {}, "label_types": {}, "present": {"yes": 0, "no": 0},
                       "align_shortcut_triggers": 0, "unnamed_level_cases": 0, "equal_length_cases": 0, "consumer_cases": {},
                       "outside_quantifier_cases": 0, "shared_index_object_cases": 0,
-                      "raising_calls_checked_for_unchanged_operands": 0, "level_name_types": {}, "consumer_pf_scatter": {}}
+                      "raising_calls_checked_for_unchanged_operands": 0, "level_name_types": {}, "consumer_pf_scatter": {},
+                      "pandas": {"version": pd.__version__,
+                                 "copy_on_write": bool(int(pd.__version__.split(".")[0]) >= 3 or pd.get_option("mode.copy_on_write"))}}
         self.exhaustive = False
         self._cache = {}
+        # classes that are open in KNOWN_FINDINGS.jsonl (the tolerance of the correspondence for PENDING repairs)
+        self._open = {e["class"] for e in core.load_known(self.ID) if e.get("status") == "open"}
 
     # -------------------------------------------------------------- generation
     def generate(self, rng, tier):
@@ -1122,9 +1602,47 @@ class C13(Prop):
                         if layout(case) == "overlapping" and not shared_keys_present(case):
                             continue
                         yield case
+        # a MultiIndex of ONE level (as groupby / stack / xs(drop_level=False) return it) on either operand
+        for on, pn in ((["x"], ["x"]), (["x"], ["y"]), (["x"], ["x", "z"]), (["x", "z"], ["z"]), (["x"], [None])):
+            for mo, mp in ((True, False), (False, True), (True, True)):
+                if (mo and len(on) > 1) or (mp and len(pn) > 1):
+                    continue
+                for ok in ordered_key_lists(len(on), 2, 2):
+                    for pk in ordered_key_lists(len(pn), 2, 2):
+                        case = {"obj": {"kind": "frame" if (len(ok) + len(pk)) % 2 else "series", "names": on, "keys": ok, "ncols": 1},
+                                "prm": {"kind": "series", "names": pn, "keys": pk, "ncols": 1}, "labels": {}}
+                        if mo:
+                            case["obj"]["mi1"] = True
+                        if mp:
+                            case["prm"]["mi1"] = True
+                        yield case
+        # a Series object with entries that are not strings / with several levels against arrays and scalars
+        for rl in ("int", "float", "tuple", "str"):
+            for n in (1, 2, 3):
+                for prm in ({"kind": "array", "vals": [4, 5], "np": True}, {"kind": "array", "vals": [7], "np": False},
+                            {"kind": "array", "vals": list(range(n)), "np": True}, {"kind": "scalar", "v": 3}):
+                    yield {"obj": {"kind": "series", "names": ["x"], "keys": [[i] for i in range(n)], "ncols": 1},
+                           "prm": dict(prm), "labels": {"x": "int"}, "rec_labels": rl, "cells": "frac"}
+        for prm in ({"kind": "array", "vals": [4, 5], "np": True}, {"kind": "array", "vals": [7], "np": False}, {"kind": "scalar", "v": 3}):
+            yield {"obj": {"kind": "series", "names": ["x", "y"], "keys": [[0, 1], [1, 0], [1, 1]], "ncols": 1},
+                   "prm": dict(prm), "labels": {"x": "str", "y": "int"}, "cells": "frac"}
+        # an operand without rows ("every ... size")
+        for on, pn in EXH_LAYOUTS:
+            for ok in [[]] + list(ordered_key_lists(len(on), 2, 1)) + [[[0] * len(on), [1] * len(on)]]:
+                for pk in [[]] + list(ordered_key_lists(len(pn), 2, 1)) + [[[1] * len(pn), [0] * len(pn)]]:
+                    if ok and pk:
+                        continue
+                    case = {"obj": {"kind": "frame", "names": on, "keys": ok, "ncols": 1},
+                            "prm": {"kind": "series", "names": pn, "keys": pk, "ncols": 1}, "labels": {}}
+                    if layout(case) == "overlapping" and not shared_keys_present(case):
+                        case["outside"] = True
+                    yield case
         for v in range(len(COLLECTIVE_RAISE_VARIANTS)):
             for op in ("scale", "shift"):
                 yield {"kind": "collective-raise", "variant": v, "op": op}
+        for op in ("scale", "shift"):
+            for fk in ("scalar", "array"):
+                yield {"kind": "collective-raise", "variant": 3, "op": op, "factor": fk}
         nrand = 1300 if tier == "quick" else 16000
         for _ in range(nrand):
             u = rng.random()
@@ -1141,10 +1659,15 @@ class C13(Prop):
                 yield gen_nonpandas_case(rng)
             elif u < 0.93:
                 yield gen_record_case(rng)
-            elif u < 0.99:
+            elif u < 0.97:
                 yield woehler_case(rng)
+            elif u < 0.98:
+                yield {"kind": "haigh", "n_e": rng.randint(1, 5), "seed": rng.randrange(1 << 30), "m2": rng.random() < 0.6}
+            elif u < 0.985:
+                yield {"kind": "haigh-five", "n_e": rng.randint(1, 4), "seed": rng.randrange(1 << 30)}
             else:
-                yield {"kind": "haigh", "n_e": rng.randint(1, 5), "seed": rng.randrange(1 << 30)}
+                yield {"kind": "haigh-transform", "n_e": rng.randint(1, 4), "n_c": rng.randint(1, 4), "seed": rng.randrange(1 << 30),
+                       "cycles": rng.choice(["disjoint", "per-element"]), "R_goal": rng.choice([-1.0, 0.0, 0.5, -3.0])}
 
     # -------------------------------------------------------------- correspondence
     def model_lines(self, case):
@@ -1178,6 +1701,20 @@ class C13(Prop):
         if isinstance(c, str):
             return ["unaligned: " + c] * 3
         return [show_table(c, 0), show_table(c, 1), result_names(case, r)]
+
+    def compare(self, case, model_out, impl_out):
+        d = super().compare(case, model_out, impl_out)
+        if d is None or case.get("kind") in CONSUMER_KINDS:
+            return d
+        # the model describes the repaired code: while a repair's finding class is open, the unrepaired answer
+        # (exactly that exception on exactly that class of cases) is not a disagreement
+        r = self._run(case)
+        pk = pending_class(case, r)
+        if pk in self._open and impl_out == ["error " + r.error] * 3:
+            t = self.stats.setdefault("correspondence_pending_repair", {})
+            t[pk] = t.get(pk, 0) + 1
+            return None
+        return d
 
     def _count(self, case):
         s = self.stats
@@ -1220,11 +1757,26 @@ class C13(Prop):
             self.stats["consumer_pf_scatter"][k] = self.stats["consumer_pf_scatter"].get(k, 0) + 1
             return woehler_oracle(case)
         if case.get("kind") == "haigh":
-            self.stats["consumer_cases"]["haigh"] = self.stats["consumer_cases"].get("haigh", 0) + 1
-            return haigh_oracle(case)
+            k = "haigh" if case.get("m2", True) else "haigh-default-M2"
+            self.stats["consumer_cases"][k] = self.stats["consumer_cases"].get(k, 0) + 1
+            res = haigh_oracle(case)
+            if res is not None and res[1] == "haigh-callers-frame-modified" and self.known(res[1], res[0]):
+                return None
+            return res
+        if case.get("kind") == "haigh-five":
+            self.stats["consumer_cases"]["haigh-five"] = self.stats["consumer_cases"].get("haigh-five", 0) + 1
+            return haigh_five_oracle(case)
+        if case.get("kind") == "haigh-transform":
+            k = "haigh-transform-" + case["cycles"]
+            self.stats["consumer_cases"][k] = self.stats["consumer_cases"].get(k, 0) + 1
+            return haigh_transform_oracle(case)
         if case.get("kind") == "collective-raise":
-            self.stats["consumer_cases"]["collective-raise"] = self.stats["consumer_cases"].get("collective-raise", 0) + 1
-            return collective_raise_oracle(case)
+            k = "collective-" + case["op"] + "-" + case.get("factor", "series")
+            self.stats["consumer_cases"][k] = self.stats["consumer_cases"].get(k, 0) + 1
+            res = collective_raise_oracle(case)
+            if res is not None and res[1] == "collective-scale-shift-writes-into-collective" and self.known(res[1], res[0]):
+                return None
+            return res
         res = self._oracle_table(case)
         if res is not None and not res[1].startswith("inputs-modified") and int_name_not_first(case):
             return ("a level NAMED 0 that is not the first level is taken for level number 0: " + res[0], "int-level-name-as-position")
@@ -1253,22 +1805,31 @@ class C13(Prop):
                         "inputs-modified-after-raise" if r.error else "inputs-modified")
         if case.get("outside"):     # outside the quantifier: raising is fine, the operands above must still be untouched
             return None
-        if isinstance(ref, tuple):     # the documented ValueError for arrays of a wrong length
+        if isinstance(ref, tuple) and ref[0] == "error":     # the documented ValueError for arrays of a wrong length
             if r.error == ref[1]:
                 return None
             return (f"array of a wrong length: expected {ref[1]}, got {r.error or 'a result'}", "array-length")
         if r.error:
-            if contained_multi_missing(case):
-                return (f"broadcast raised {r.error} ({layout(case)}, >= 2 shared levels, the operand with fewer levels holds a key the other has not)",
-                        "contained-multi-shared-missing-key")
+            pk = pending_class(case, r)
+            if pk is not None:
+                d = {"record-nonstring-entries": "a Series object whose index entries are not strings cannot be broadcast to an array",
+                     "one-level-multiindex": "an operand whose index is a MultiIndex of one level cannot be broadcast",
+                     "contained-multi-shared-missing-key": "a partner-less row of the operand that lacks a result level"}[pk]
+                d = f"broadcast raised {r.error}: {r.errmsg[:60]} ({layout(case)}; {d})"
+                if not self.known(pk, d):
+                    return (d, pk)
+                return None       # nothing was returned: no later clause to evaluate
             return (f"broadcast raised {r.error}: {r.errmsg} ({layout(case)})", "align-equal-values" if shortcut else "raises")
         o, p = r.res_obj, r.res_prm
+        must, may = ref
         # identical index of the two returned objects
         if isinstance(o, (pd.Series, pd.DataFrame)) and isinstance(p, (pd.Series, pd.DataFrame)) and not \
                 (is_record(case) and isinstance(o, pd.Series)):
             if list(o.index.names) != list(p.index.names):
                 return (f"the returned objects have different index levels: object {list(o.index.names)}, parameter {list(p.index.names)} ({layout(case)})", klass_mis)
-            if len(o.index) != len(p.index) or list(o.index) != list(p.index):
+            if len(o.index) != len(p.index) or not all(a == b or (is_nan_label(a) and is_nan_label(b))
+                                                        for ta, tb in zip(map(astuple, o.index), map(astuple, p.index))
+                                                        for a, b in zip(ta, tb)):
                 return (f"the returned objects have different indices: object {list(o.index)[:5]}, parameter {list(p.index)[:5]} ({layout(case)})", klass_mis)
         # the result's level names are the operands' level names (0 and '' are names, only None is "unnamed")
         if case["prm"]["kind"] in ("series", "frame") and isinstance(o, (pd.Series, pd.DataFrame)):
@@ -1281,6 +1842,11 @@ class C13(Prop):
                 return (f"result level names {list(o.index.names)} ({len(o)} rows) are not the operands' level names "
                         f"{[real_name(case, n) for n in case['obj']['names']]} and {[real_name(case, n) for n in case['prm']['names']]} ({layout(case)})",
                         klass_mis if shortcut else "level-names")
+        # a record comes back as a frame whose COLUMNS are the record's entries (labels, order, level names)
+        if is_record(case) and isinstance(o, pd.DataFrame):
+            if list(o.columns) != list(r.obj0.index) or list(o.columns.names) != list(r.obj0.index.names):
+                return (f"the record's entries {list(r.obj0.index)[:4]} came back as columns {list(o.columns)[:4]} "
+                        f"(names {list(o.columns.names)})", "record-columns")
         c = canon_result(case, r)
         if isinstance(c, str):
             return (f"the returned objects are not aligned: {c} ({layout(case)})", klass_mis)
@@ -1300,11 +1866,31 @@ class C13(Prop):
                 if {n for n, _ in key} != set(on) | set(pn):
                     return (f"row {sk(key)}: levels are not the union of the operands' levels", "levels")
         # nothing lost, nothing invented: the relation the documentation describes (cross join: |obj|*|prm| rows)
-        if c != ref:
-            missing = [sk(k) for k in ref if k not in c][:3]
-            extra = [sk(k) for k in c if k not in ref][:3]
-            return (f"result differs from the relational join: missing rows {missing}, extra rows {extra}, "
-                    f"{len(c)} rows instead of {len(ref)} ({layout(case)})", klass_mis if shortcut else "join")
+        missing = [k for k in must if k not in c]
+        extra = [k for k in c if k not in must and k not in may]
+        wrong = [k for k in c if (k in must and c[k] != must[k]) or (k in may and c[k] != may[k])]
+        if missing or extra or wrong:
+            return (f"result differs from the relational join: missing rows {[sk(k) for k in missing[:3]]}, extra rows "
+                    f"{[sk(k) for k in extra[:3]]}, rows with other cells {[(sk(k), c[k]) for k in wrong[:2]]}; "
+                    f"{len(c)} rows, {len(must)} expected" + (f" (+ up to {len(may)} partner-less rows with NaN levels)" if may else "")
+                    + f" ({layout(case)})", klass_mis if shortcut else "join")
+        if may:
+            kept = sum(1 for k in may if k in c)
+            t = self.stats.setdefault("partnerless_rows_lacking_a_level", {"kept_with_nan_level": 0, "left_out": 0})
+            t["kept_with_nan_level"] += kept
+            t["left_out"] += len(may) - kept
+        # row order where the documentation fixes it
+        want_order = documented_order(case)
+        if want_order is not None and list(c) != want_order:
+            return (f"row order of the result {[sk(k) for k in list(c)[:4]]} is not the documented one "
+                    f"{[sk(k) for k in want_order[:4]]} ({layout(case)})", "row-order")
+        # dtypes (recorded, not judged: the property speaks of values)
+        try:
+            dt = self.stats.setdefault("dtypes_object_original_to_returned", {})
+            k = f"{np.asarray(r.obj0).dtype}->{np.asarray(o).dtype}"
+            dt[k] = dt.get(k, 0) + 1
+        except Exception:
+            pass
         return None
 
     # -------------------------------------------------------------- shrinking
@@ -1351,6 +1937,21 @@ class C13(Prop):
                 del cand["name_types"][nm]
                 if still_fails(cand):
                     cur, changed = cand, True
+            for side in ("obj", "prm"):
+                if cur[side].get("mi1"):
+                    cand = copy.deepcopy(cur)
+                    del cand[side]["mi1"]
+                    if still_fails(cand):
+                        cur, changed = cand, True
+            for k, plain in (("cells", "int"), ("rec_labels", "str"), ("anon_plain", None)):
+                if k in cur and cur[k] != plain:
+                    cand = copy.deepcopy(cur)
+                    if plain is None:
+                        del cand[k]
+                    else:
+                        cand[k] = plain
+                    if still_fails(cand):
+                        cur, changed = cand, True
             if cur.get("labels") and any(v != "int" for v in cur["labels"].values()):
                 cand = copy.deepcopy(cur)
                 cand["labels"] = {k: "int" for k in cur["labels"]}
